@@ -74,3 +74,36 @@ def validate(ctx, trace, spec, cfg, mine, key_prefix, describe):
 
 def short(row, keys):
     return json.dumps({k: row.get(k) for k in keys if k in row})[:900]
+
+
+def relation_scenarios(ctx, quick):
+    """Relations.tla: TLC explores every relationship state reachable by <= 4 attempts and exports every transition
+    (admissible or not) with a path; a stratified sample (every (operation, admissible, relationship of actor to target,
+    target status, actor role) stratum) is executed as real transactions, one per block.  Returns (trace, model result, stats)."""
+    import collections
+    import random
+    r = vlib.tlc(ctx, "Relations.tla", "MC_Relations.cfg", workers=8, timeout=1800)
+    if not r.ok:
+        raise vlib.CheckError("design-level model Relations violates %s (model-only):\n%s" % (r.invariant, (r.error or "")[:1500]))
+    strata = collections.defaultdict(list)
+    for e in r.exports:
+        last = e["path"][-1]
+        strata[(last["op"], last["ok"], last.get("rel"), last.get("tst"), last.get("a"))].append(e)
+    rnd = random.Random(ctx.seed)
+    per = 3 if quick else 30
+    chosen = []
+    for k in sorted(strata, key=str):
+        lst = strata[k]
+        rnd.shuffle(lst)
+        chosen += lst[:per]
+    path = ctx.path("rel.json")
+    with open(path, "w") as f:
+        for e in chosen:
+            f.write(json.dumps({"path": e["path"]}) + "\n")
+    drv = vlib.build_driver(ctx, "d_chain", clocks=CLOCKS)
+    trace = ctx.path("rel.ndjson")
+    p = vlib.run_driver(ctx, drv, ["-out", trace, "-rel", path], timeout=3400)
+    if p.returncode != 0:
+        raise vlib.CheckError("driver failed on the relationship scenarios:\n" + (p.stdout or "")[-2500:])
+    ctx.log("relationship scenarios: %d strata, %d paths; %s" % (len(strata), len(chosen), (p.stdout or "").strip().splitlines()[-1]))
+    return trace, r, {"strata": len(strata), "paths": len(chosen), "transitions_exported": len(r.exports)}
